@@ -98,5 +98,14 @@ CHECKS = {
         note="Each runner gets its own lark parser; message text of errors not compared; three recorded findings (compiled has() bool, error values used as data, message literals) are excluded by narrow root-cause keys.",
         design_ref="DESIGN.md §4 C03",
     ),
+    "C06": dict(
+        technique="exhaustive enumeration of operator pairs/triples + property-based testing (Hypothesis): print/parse round trips (minimal vs full parentheses vs tree), token re-joining metamorphic relation, dump round trip",
+        category="exploration",
+        text="All IR trees with <= 2 operator nodes (<= 3 in thorough) over 22 operator kinds, generated programs and the corpus: minimal-parenthesis text, fully "
+             "parenthesised text and the tree itself parse to the same expression; keywords are literals; lexer tokens re-joined with random whitespace/comments "
+             "parse identically; parse(tree_dump(parse(s))) == parse(s) modulo parentheses, failures localised to the smallest sub-expression.",
+        note="Trees compared through vf.tree2ir (own lark-tree-to-IR converter); signed numeric literal '-1' identified with -(1); one recorded finding ('[]' dumped as '').",
+        design_ref="DESIGN.md §4 C06",
+    ),
 }
 NOT_APPLICABLE = {}
